@@ -100,8 +100,13 @@ def run(ck: Check, prog: Program) -> None:
                 d = dotted(x.func) or ''
                 if d == 'self.signature':
                     a = x.args[1] if len(x.args) > 1 else None
-                    if a is not None and 'exclude' in {y.id for y in ast.walk(a) if isinstance(y, ast.Name)}:
-                        fwd = True
+                    if a is not None:
+                        from ..flow import Flow
+                        from ..util import stmt_node_of
+                        xn = stmt_node_of(cfg, x)
+                        leafs = [al.expr for al in Flow(cfg).alts(xn, a)] if xn is not None else [a]
+                        if leafs and all('exclude' in {y.id for y in ast.walk(l_) if isinstance(y, ast.Name)} for l_ in leafs):
+                            fwd = True
                 if isinstance(x.func, ast.Attribute) and x.func.attr == 'validate_method' and isinstance(x.func.value, ast.Call):
                     if any(dotted(a) == 'exclude' for a in x.args) or any(kw.arg == 'exclude' and dotted(kw.value) == 'exclude' for kw in x.keywords):
                         fwd = True
@@ -138,6 +143,8 @@ def run(ck: Check, prog: Program) -> None:
     _coerce(ck, prog)
     _encoder(ck, prog)
     # dispatcher: validation precedes invocation
+    from .common import dispatcher_program
+    prog = dispatcher_program(prog)
     roles = dispatchers(prog)
     it2 = c01.make_interp(prog, roles)
     for r in roles:
@@ -153,33 +160,13 @@ def _signature_filter(ck: Check, prog: Program) -> None:
     if sig is None:
         raise AnalysisError('BaseValidator.signature not found')
     ck.functions.add(sig.qualname)
-    cfg = CFG(sig, prog)
-    heads = [n for n in cfg.nodes if n.kind == 'next']
-    ok = False
-    why = 'filter loop not recognised'
-    if len(heads) == 1:
-        h = heads[0]
-        it_ok = 'parameters' in norm(h.ast.iter)
-        pv = dotted(h.ast.target)
-        appends = [n for n in cfg.stmt_nodes() for c in calls_in(n) if isinstance(c.func, ast.Attribute) and c.func.attr == 'append'
-                   and c.args and dotted(c.args[0]) == pv]
-        if it_ok and len(appends) == 1:
-            gs = guard_edges(cfg, appends[0])
-            forms = set()
-            for g in gs:
-                e = g.src.ast
-                if isinstance(e, ast.Compare) and isinstance(e.ops[0], ast.NotIn) and dotted(e.left) == f'{pv}.name' and \
-                        dotted(e.comparators[0]) == sig.params[2].arg and g.label == 'T':
-                    forms.add('name-not-in-exclude')
-                elif isinstance(e, ast.Compare) and isinstance(e.ops[0], ast.In) and dotted(e.left) == f'{pv}.name' and g.label == 'F':
-                    forms.add('name-not-in-exclude')
-                elif isinstance(e, ast.Call) and dotted(e.func) == 'self._exclude_param' and g.label == 'F' and \
-                        [dotted(a) for a in e.args] == [f'{pv}.name', f'{pv}.annotation', f'{pv}.default']:
-                    forms.add('predicate-false')
-                else:
-                    forms.add(f'other:{norm(e)}:{g.label}')
-            ok = forms == {'name-not-in-exclude', 'predicate-false'}
-            why = f'a parameter is kept iff {sorted(forms)}'
+    from .c17 import keep_formula
+    forms = keep_formula(prog, sig)
+    if forms is None:
+        raise AnalysisError(f'{sig.qualname}: parameter-filter construct not recognised (recognised: append / keyed store in a loop over '
+                            f'.parameters, or a comprehension over it)')
+    ok = forms == {'name-not-in-exclude', 'predicate-false'}
+    why = f'a parameter is kept iff {sorted(forms)}'
     # the result replaces the parameters of the inspected signature
     rep = any(isinstance(x, ast.Call) and isinstance(x.func, ast.Attribute) and x.func.attr == 'replace' and
               any(kw.arg == 'parameters' for kw in x.keywords) for x in walk_own(sig.node))
@@ -190,18 +177,33 @@ def _signature_filter(ck: Check, prog: Program) -> None:
                    f'signature() must keep a parameter iff name ∉ exclude ∧ ¬exclude_param(name, annotation, default); found: {why}')
 
 
+def _pyd_validate_method(prog: Program):
+    """(program, validate_method) with helpers extracted from PydanticValidator.validate_method inlined."""
+    from ..inline import inlined_program
+    q = 'pjrpc.server.validators.pydantic.PydanticValidator.validate_method'
+    if q not in prog.funcs:
+        return None, None
+    p2 = inlined_program(prog, [q])
+    return p2, p2.func(q)
+
+
 def _same_signature(ck: Check, prog: Program) -> None:
     """Pydantic: the same filtered signature feeds the binder and the schema builder."""
-    ci = prog.classes.get('pjrpc.server.validators.pydantic.PydanticValidator')
-    if ci is None or 'validate_method' not in ci.methods:
+    from ..flow import Flow
+    from ..util import stmt_node_of
+    prog, vm = _pyd_validate_method(prog)
+    if vm is None:
         return
-    vm = ci.methods['validate_method']
-    sigvars = set()
-    for st in walk_own(vm.node):
-        if isinstance(st, ast.Assign) and isinstance(st.value, ast.Call) and dotted(st.value.func) == 'self.signature':
-            sigvars |= {t.id for t in st.targets if isinstance(t, ast.Name)}
+    cfg = CFG(vm, prog)
+    fl = Flow(cfg)
+    sources = []
     uses = [x for x in walk_own(vm.node) if isinstance(x, ast.Call) and dotted(x.func) in ('self.bind', 'self.build_validation_schema')]
-    ok = len(sigvars) == 1 and len(uses) == 2 and all(x.args and dotted(x.args[0]) in sigvars for x in uses)
+    for x in uses:
+        xn = stmt_node_of(cfg, x)
+        alts = fl.alts(xn, x.args[0]) if (xn is not None and x.args) else []
+        sources.append([al.expr for al in alts])
+    ok = len(uses) == 2 and all(len(s_) == 1 and isinstance(s_[0], ast.Call) and dotted(s_[0].func) == 'self.signature' for s_ in sources) and \
+        sources[0][0] is sources[1][0]
     ck.ob('EXCL-AGREE', 'PydanticValidator: one filtered signature feeds both the binder and the schema builder', ok)
     if not ok:
         ck.finding('EXCL-AGREE', vm.qualname, 'binder and schema use different signatures', vm.module.rel, vm.node.lineno,
@@ -209,21 +211,41 @@ def _same_signature(ck: Check, prog: Program) -> None:
 
 
 def _coerce(ck: Check, prog: Program) -> None:
-    ci = prog.classes.get('pjrpc.server.validators.pydantic.PydanticValidator')
-    if ci is None or 'validate_method' not in ci.methods:
+    from ..flow import Flow
+    prog, vm = _pyd_validate_method(prog)
+    if vm is None:
         return
-    vm = ci.methods['validate_method']
-    ok = False
-    for st in walk_own(vm.node):
-        if isinstance(st, ast.Return) and isinstance(st.value, ast.IfExp):
-            e = st.value
-            if dotted(e.test) == 'self._coerce' and isinstance(e.body, ast.DictComp) and 'getattr' in norm(e.body) and \
-                    norm(e.orelse).endswith('.arguments'):
-                ok = True
+    cfg = CFG(vm, prog)
+    fl = Flow(cfg)
+    seen = set()
+    bad = []
+    for n in cfg.stmt_nodes():
+        if n.kind != 'stmt' or not isinstance(n.ast, ast.Return) or n.ast.value is None:
+            continue
+        for al in fl.alts(n, n.ast.value):
+            st = None
+            for c, pol in al.guards:
+                k = classify_cond(prog, vm, c)
+                if k.kind == 'truthy' and k.subject == 'self._coerce':
+                    st = (not k.negated) == pol
+            v = al.expr
+            is_args = norm(v).endswith('.arguments')
+            model_attrs = (isinstance(v, ast.DictComp) and 'getattr' in norm(v)) or \
+                (isinstance(v, ast.Name) and al.built_def is not None and any(
+                    isinstance(m.ast, ast.Assign) and isinstance(m.ast.targets[0], ast.Subscript) and dotted(m.ast.targets[0].value) == v.id
+                    and 'getattr' in norm(m.ast.value) for m in cfg.stmt_nodes()))
+            if st is True and model_attrs:
+                seen.add('coerced')
+            elif st is False and is_args:
+                seen.add('as-bound')
+            else:
+                bad.append(al.text()[:80])
+    ok = seen == {'coerced', 'as-bound'} and not bad
     ck.ob('COERCE-SWITCH', 'PydanticValidator returns model attributes iff coerce, the bound arguments otherwise', ok)
     if not ok:
         ck.finding('COERCE-SWITCH', vm.qualname, 'coercion switch', vm.module.rel, vm.node.lineno,
-                   'validate_method must return the model\'s (coerced) attributes iff self._coerce, else the bound arguments unchanged')
+                   f'validate_method must return the model\'s (coerced) attributes iff self._coerce, else the bound arguments unchanged'
+                   f'{"; found " + "; ".join(bad) if bad else ""}')
 
 
 def _encoder(ck: Check, prog: Program) -> None:
